@@ -49,6 +49,9 @@ def gen_case(r, hashseed, tier):
     if r.random() < 0.3:
       # a table the program points to by name (still in the attached database)
       ground_table[g] = '%s.%s' % (HOME, r.choice(['t_%s', 'out_%s', '%s_tbl', 'X%s']) % g.lower())
+  if preset is None and not ground_table and r.random() < 0.15:
+    add_grounded_functor(r, program, ground, dep)
+    idb = gen.idb_names(program)       # the copy and its reader can be asked for
   versions = [{p['name']: p['rows'] for p in program['preds'] if p['kind'] == 'edb'}]
   for _ in range(r.choice([0, 1, 2])):
     v = {}
@@ -87,6 +90,33 @@ def gen_case(r, hashseed, tier):
           'versions': versions, 'ops': ops, 'aux_db': aux_db, 'attach_via_flag': r.random() < 0.25,
           # @Dataset("logica_test"): grounded tables are asked to live in the in-memory database although a file is attached
           'dataset_memory': (not ground_table) and r.random() < 0.12}
+
+
+def add_grounded_functor(r, program, ground, dep):
+  """`GFc := G(E: ETwo)` for a grounded G with no other grounded predicate between it and E
+  (the compiler's names for copies of intermediates are its own), plus a reader of the copy."""
+  by = {p['name']: p for p in program['preds']}
+  cands = []
+  for g in ground:
+    if by[g].get('limit') or by[g].get('cols'):
+      continue
+    for e in sorted(dep[g]):
+      if e in by and by[e]['kind'] == 'edb' and not any(
+          h != g and h in dep[g] and e in dep[h] for h in ground):
+        cands.append((g, e))
+  if not cands:
+    return
+  g, e = r.choice(cands)
+  src = by[e]
+  name2 = e + 'Two'
+  rows = [list(x) for x in src['rows']][:max(1, len(src['rows']) - 1)] + [list(src['rows'][0])]
+  program['preds'].append(dict(gen.copy_pred(src), name=name2, rows=rows))
+  program['functors'] = [{'name': g + 'Fc', 'of': g, 'args': {e: name2}}]
+  ar = by[g]['arity']
+  hv = [gen.V(gen.VARS[i]) for i in range(ar)]
+  val = 'a8' if by[g]['kind'] == 'agg' else None
+  program['preds'].append({'name': 'RdFc', 'arity': ar, 'kind': 'bag', 'rules': [
+      gen.rule(hv, [[g + 'Fc', hv, val]])]})
 
 
 def gen_fault(r):
@@ -214,9 +244,12 @@ def run_history(case, scratch):
   for f in (dbpath, dbpath + '-journal'):
     if os.path.exists(f):
       os.remove(f)
-  by = {p['name']: p for p in case['program']['preds']}
-  dep = gen.dependants(case['program'])
-  ground = list(case['ground'])
+  # functor copies are ordinary predicates to the oracle (explicit copies, ref.expand_functors); a copy
+  # of a grounded predicate inherits @Ground, its table carries the copy's own name
+  xprog = ref.expand_functors(case['program'])
+  by = {p['name']: p for p in xprog['preds']}
+  dep = gen.dependants(xprog)
+  ground = list(case['ground']) + [f['name'] for f in case['program'].get('functors') or [] if f['of'] in case['ground']]
   gt = case.get('ground_table') or {}
 
   def tab(g):
